@@ -23,19 +23,17 @@ TECHNIQUE = ("runtime exploration of the real header automata to a fixpoint: (au
 RULE = ("for each language and each expression it passes to the matcher (header pattern and follow-up pattern, captured "
         "at run time): configurations = (DFA state, depth class 0/1/>=2 of every Balanced predicate copy), explored "
         "breadth-first by replaying witness sequences on fresh real Pattern objects until no new configuration appears; "
-        "token classes = token kinds {Keyword, Keyword.Declaration, Name, Name.Function, Punctuation, Operator, String, "
-        "Number, Text} x (every string value a predicate of the expression distinguishes + one fresh value); a case is "
+        "token classes = every standard Pygments token type except comments/whitespace (about 80 kinds) x (every string value a predicate of the expression distinguishes + one fresh value); a case is "
         "one (expression, configuration, token class); non-trivial = at least one transition accepts the token")
 ASSUMPTIONS = ["depth classes {0,1,>=2} are a sound abstraction: Balanced.accept depends on depth only through depth>0, "
                "depth==0 after decrement and depth<0, all of which are decided within the classes reached by witnesses",
-               "token kinds beyond the listed ones behave like one of them for every predicate used (predicates test "
-               "membership in Keyword/Name/Punctuation/Operator or the bare value)"]
+               "token kinds are Pygments' STANDARD_TYPES; a lexer-specific custom token type would behave like its nearest standard ancestor"]
 BOUNDS = {"quick": dict(rand=3000, rlen=24), "thorough": dict(rand=200000, rlen=40)}
 EXHAUSTIVE = {"quick": True, "thorough": True}
 EXHAUSTIVE_SCOPE = {t: "all reachable (state, depth-class) configurations of every captured expression x all token classes"
                     for t in BOUNDS}
-MINIMUM = {"quick": {"monitor.transitions_counted": 2000, "monitor.consume_calls": 2000, "expressions.explored": 10},
-           "thorough": {"monitor.transitions_counted": 2000, "monitor.consume_calls": 2000, "expressions.explored": 10}}
+MINIMUM = {"quick": {"monitor.transitions_counted": 20000, "monitor.consume_calls": 20000, "expressions.explored": 10},
+           "thorough": {"monitor.transitions_counted": 20000, "monitor.consume_calls": 20000, "expressions.explored": 10}}
 
 
 def shards(tier, seed):
@@ -45,10 +43,12 @@ def shards(tier, seed):
 
 
 def kinds():
-    from pygments.token import Token as T
+    """every standard Pygments token type (about 80: Keyword.Type, Keyword.Reserved, Name.Builtin, Operator.Word, ...) except
+    whitespace and comments, which never reach the matcher"""
+    from pygments.token import STANDARD_TYPES, Comment, Whitespace, Token as T
 
-    return [T.Keyword, T.Keyword.Declaration, T.Name, T.Name.Function, T.Punctuation, T.Operator,
-            T.Literal.String, T.Literal.Number, T.Text]
+    out = [t for t in sorted(STANDARD_TYPES, key=str) if t is not T and t not in Comment and t not in Whitespace]
+    return out + [T.Text]
 
 
 def distinguished_values(expr):
